@@ -68,9 +68,18 @@ def rule_set_id(ctx, cfg, F, backend):
         for si, st in enumerate(add.stmts(b)):
             if st["s"] == "assign" and st["rv"]["r"] == "agg" and (st["rv"]["kind"].get("adt") or "").endswith("PollEntry"):
                 stored.append(("PollEntry.id", st["rv"]["a"][0], b))
+    member_vecs = set()          # fields of the set that add() appends to (the id vector and the receiver vector, or one vector of entries)
     for b, t in add.calls_to("std::vec::Vec::push"):
-        if "u64" in " ".join(t.get("generics", [])):
+        fld = next(iter(x.field_names()[:1] for x in tr.roots_of_operand(t["args"][0]) if x.kind == "param" and x.id == 1), None)
+        if fld:
+            member_vecs.add(fld)
+        if (t.get("generics") or [""])[0] == "u64":
             stored.append(("id vector", t["args"][1], b))
+        else:
+            from rules.ipcl import _leaves
+            for ty, o in _leaves(add, t["args"][1]):
+                if ty == "u64" and o.get("k") != "c":
+                    stored.append(("member entry", o, b))
     if not stored:
         R.violate("%s:no-stored-id" % add.path, "add stores no id for the member", add.path, add.loc(0), config=cfg)
     for what, op, b in stored:
@@ -120,7 +129,8 @@ def rule_set_id(ctx, cfg, F, backend):
                     for r in roots:
                         if r.kind == "call" and strip_generics(r.id) in ("std::ops::Index::index", "<std::vec::Vec<T, A> as std::ops::Index<I>>::index"):
                             it = sel.term(r.block)
-                            base_ok = any(x.kind == "param" and x.id == 1 and x.field_names()[:1] == ("receiver_ids",) for x in trs.roots_of_operand(it["args"][0]))
+                            base_ok = any(x.kind == "param" and x.id == 1 and x.field_names()[:1] in member_vecs for x in trs.roots_of_operand(it["args"][0])) and \
+                                (r.field_idx()[-1:] in ((), (0,)) or "u64" in sel.local_ty(op_local(idop) or 0))
                             idx_ok = any(x.kind == "call" and x.id == "crossbeam_channel::SelectedOperation::index" for x in trs.roots_of_operand(it["args"][1]))
                             ok = base_ok and idx_ok
                     if ok:
@@ -133,8 +143,8 @@ def rule_set_id(ctx, cfg, F, backend):
         rem = [(b, t) for b, t in sel.calls_to("std::vec::Vec::remove")]
         idx_roots = [frozenset(r.key() for r in trs.roots_of_operand(t["args"][1])) for b, t in rem]
         vecs = {next(iter(x.field_names()[:1] for x in trs.roots_of_operand(t["args"][0]) if x.kind == "param"), None) for b, t in rem}
-        if len(rem) == 2 and len(set(idx_roots)) == 1 and vecs == {("receivers",), ("receiver_ids",)}:
-            R.ok("closed member: both parallel vectors removed at the same index", sel.loc(rem[0][0]), cfg)
+        if rem and len(rem) == len(member_vecs) and len(set(idx_roots)) == 1 and vecs == member_vecs:
+            R.ok("closed member: removed at one index from every vector add() appends to (%s)" % ", ".join(sorted(v[0] for v in member_vecs)), sel.loc(rem[0][0]), cfg)
         else:
             R.violate("%s:parallel-remove" % sel.path, "the parallel vectors are not both removed at the same index (%d removes on %s)" % (len(rem), sorted(map(str, vecs))), sel.path, sel.loc(0), config=cfg)
 
@@ -356,10 +366,14 @@ def rule_set_inproc(ctx, cfg, F):
     tr = Tracer(add)
     pushes = [(b, t) for b, t in add.calls_to("std::vec::Vec::push")]
     targets = sorted(next(iter(x.field_names()[:1] for x in tr.roots_of_operand(t["args"][0]) if x.kind == "param"), ("?",))[0] for b, t in pushes)
-    ok = targets == ["receiver_ids", "receivers"] and all(add.all_paths_pass(0, [b])[0] for b, t in pushes)
-    rcv = [t for b, t in pushes if "OsIpcReceiver" in " ".join(t.get("generics", []))]
-    consumed = bool(rcv) and any(r.kind == "call" and r.id.endswith("::OsIpcReceiver::consume") for r in tr.roots_of_operand(rcv[0]["args"][1]))
-    R.count("add_pushes[%s]" % cfg, len(pushes))
+    # what is appended, flattened: one id and one receiver per add() -- onto two parallel vectors or as one entry of one vector
+    from rules.ipcl import _leaves
+    parts = [(ty, o) for b, t in pushes for ty, o in _leaves(add, t["args"][1])]
+    ids = [o for ty, o in parts if ty == "u64"]
+    rcvs = [o for ty, o in parts if "OsIpcReceiver" in ty]
+    ok = len(ids) == 1 and len(rcvs) == 1 and len(set(targets)) == len(targets) and all(add.all_paths_pass(0, [b])[0] for b, t in pushes)
+    consumed = bool(rcvs) and any(r.kind == "call" and r.id.endswith("::OsIpcReceiver::consume") for r in tr.roots_of_operand(rcvs[0]))
+    R.count("add_pushes[%s]" % cfg, len(ids) + len(rcvs))
     if ok and consumed:
         R.ok("add pushes one id and one consumed receiver on every path", add.loc(pushes[0][0]), cfg)
     else:
@@ -381,7 +395,10 @@ def rule_set_inproc(ctx, cfg, F):
                 one = any("box_assume_init_into_vec" in n or "into_vec" in n or n.endswith("from_elem") for n in names) or any(r.kind == "agg" and r.id == "array" for r in trs.roots_of_operand(st["rv"]["a"][0]))
                 if not one:
                     bad = "an Ok return of select is not a one-element vec![..]"
-    R.count("select_returns[%s]" % cfg, n_ret)
+    # (counted: the kinds of event select can report -- data and closed -- however many Ok returns they are funnelled through)
+    n_ev = len({st["rv"]["kind"]["variant"] for b in sel.live_blocks() if not sel.is_cleanup(b) for st in sel.stmts(b)
+                if st["s"] == "assign" and st["rv"]["r"] == "agg" and (st["rv"]["kind"].get("adt") or "").endswith("OsIpcSelectionResult")})
+    R.count("select_returns[%s]" % cfg, n_ev if n_ret else 0)
     # data event fields come from the selected operation's recv
     for b in sorted(sel.live_blocks()):
         for si, st in enumerate(sel.stmts(b)):
